@@ -217,8 +217,12 @@ func init() {
 						table[b] = []string{"basic", f}
 					}
 					if structured {
-						table["Basic "+base64.StdEncoding.EncodeToString([]byte(v+":"+vpBasicPw))] = []string{"basic", f}
-						table["P "+v] = []string{"prefixed", f}
+						// (a bearer session's access token IS its ID token: the first field to claim a concrete value keeps it, as above)
+						for k, tg := range map[string][]string{"Basic " + base64.StdEncoding.EncodeToString([]byte(v+":"+vpBasicPw)): {"basic", f}, "P " + v: {"prefixed", f}} {
+							if _, dup := table[k]; !dup {
+								table[k] = tg
+							}
+						}
 					}
 				}
 				for _, g := range grp {
